@@ -345,7 +345,16 @@ func c11Grid(tier string, yield func(core.Scenario)) string {
 			}
 		}
 	}
-	return fmt.Sprintf("the full grid of %d cases: 9 store configurations x replay batch sizes {unset,1,2,3} (paged stores) x log length 0..%d x every start offset x every applicable fault kind x every fault position 0..remaining+1", n, maxL)
+	// long logs: beyond any "reasonable" internal cap or buffer size (10 000, 2^13, 2^14 ...)
+	long := []StoreCfg{{Kind: "sqlite"}}
+	if tier == "thorough" {
+		long = append(long, StoreCfg{Kind: "sqlite", StreamBatch: 7}, StoreCfg{Kind: "sqlite", HideStreamer: true}, StoreCfg{Kind: "mem"}, StoreCfg{Kind: "mem", HideStreamer: true})
+	}
+	for i, st := range long {
+		n++
+		yield(&C11Scenario{Store: st, L: 16500 + i, From: 3 * i, Fault: "none"})
+	}
+	return fmt.Sprintf("the full grid of %d cases (the last few: fault-free replays of logs of 16 500 events): 9 store configurations x replay batch sizes {unset,1,2,3} (paged stores) x log length 0..%d x every start offset x every applicable fault kind x every fault position 0..remaining+1", n, maxL)
 }
 
 var propC11 = &core.Property{ID: "C11", Gen: genC11, New: func() core.Scenario { return &C11Scenario{} }, Explicit: c11Grid}
